@@ -97,7 +97,8 @@ impl MetricsServer {
             .nest(&self.api_prefix, api)
             .layer(SetResponseHeaderLayer::if_not_present(
                 ACCESS_CONTROL_ALLOW_ORIGIN,
-                HeaderValue::from_str(&self.cors).unwrap(),
+                HeaderValue::from_str(&self.cors)
+                    .map_err(|e| easy_error::err_msg(format!("invalid cors value: {}", e)))?,
             ))
             .layer(SetResponseHeaderLayer::if_not_present(
                 CACHE_CONTROL,
